@@ -455,7 +455,68 @@ class C14(Proto):
                   "and read in order; after Close Inbound is closed.")
 
 
-ALL = {c.id: c for c in [C12, C01, C02, C03, C04, C05, C06, C07, C08, C09, C10, C11, C13, C14, C15, C17, C18, C19]}
+class C16(Prop):
+    id = "C16"
+    lean_module = "Props.C16"
+    harness = "sock"
+    streams = [("C16", "knxdrv", 0.7), ("C16send", "knxdrv", 0.3)]
+    budgets = {"quick": 1500, "thorough": 20000}
+    thorough_seeds = 3
+    rule = ("real loopback sockets (kernel TCP/UDP stack, real goroutines): TCP streams of 1..3 frames cut at EVERY "
+            "position, sent one byte per segment, and streams of 1..50 frames of every service type (structured generator, "
+            "a quarter with a damaged body) coalesced at random; streams continued after a header that ends the receiver "
+            "(header length / version / total length < 6); a sentinel frame ends every stream so that a stalled receiver is "
+            "told from a dropped frame; UDP sequences of 1..8 datagrams (valid, truncated, length octets pointing beyond the "
+            "datagram into what the previous one left in the reused array, random bytes), each followed by an awaited "
+            "sentinel; Send of generated services observed as one datagram each; 1..8 goroutines x 40 Sends on one TCP "
+            "socket re-parsed by the peer; Close with unread frames waiting (goroutine and channel end); the connect "
+            "request's HPAI for UDP/TCP x SendLocalAddress. distinct = operation lines.")
+    technique = "Lean 4 proof (prefix-stability of the framing loop by strong induction => independence of every segmentation; reused-array independence from the Safe-decoder theorem) + loopback correspondence with the real sockets"
+    level_text = ("Theorems: for EVERY list of segments, feeding them one by one gives the same services and receiver state as "
+                  "feeding their concatenation (any cut positions, 1-byte dribble, empty segments, any coalescing); a stream of "
+                  "well-formed frames surfaces exactly the frames that decode, each once, in order, and leaves the receiver "
+                  "running; frames produced by Pack are well-formed and (C02) surface as the services sent; a stopped receiver "
+                  "stays stopped; a UDP datagram's decoding does not depend on what earlier datagrams left in the array, each "
+                  "datagram is decoded once in order. Tie: the real TunnelSocket over loopback TCP/UDP vs the model on the "
+                  "same segment lists; Send, concurrency, Close and HPAI by direct oracle.")
+    partial = ("kernel segmentation actually seen by the reader, goroutine exit, mutual exclusion of concurrent conn.Write "
+               "calls (net.Conn contract) and the local-endpoint advertisement are observed on the real sockets, not proved")
+    level_note = (Prop.level_note + " Runs in real time on the loopback interface: the kernel may coalesce the written "
+                  "segments, which the theorem shows to be irrelevant.")
+
+
+class C20(Prop):
+    id = "C20"
+    lean_module = "Props.C20"
+    harness = "sock"
+    streams = [("C20", "knxdrv", 1.0)]
+    budgets = {"quick": 90, "thorough": 900}
+    thorough_seeds = 2
+    rule = ("real knx.DescribeTunnel against a scripted loopback UDP server and real knx.Discover on a multicast group with "
+            "0,1,2,3,5,20 responder sockets (group and unicast), timeouts 1,2,5,20,50,100,150,200,300,500 ms; scripts of 0..20 "
+            "datagrams: matching responses, the other response type, other services, truncated / damaged matching responses, "
+            "random bytes, datagrams from a foreign sender, scheduled at least 70 ms before or after the timeout (so that the "
+            "expected result does not depend on scheduling; two agreeing runs out of three are taken), one script in six with "
+            "a flood of non-matching frames every 2 ms through and beyond the timeout; a queried port nobody listens on. "
+            "Observed: result vs model, return time <= timeout + 400 ms slack (discover: also >= timeout), exactly one request "
+            "(discover: counted on a packet socket, the request is sent with multicast loopback off), the description "
+            "request's HPAI = the socket's endpoint, local port unbound and no goroutine left after the return. "
+            "distinct = operation lines.")
+    technique = "Lean 4 proof (result and return time as functions of the arrival history: time bound, first-match, exact filter, irrelevance of non-matching and late arrivals) + real-time loopback correspondence"
+    level_text = ("Theorems for every arrival history: describe returns by its timeout, with the first description response that "
+                  "arrived before it or nothing; discover returns at its timeout with exactly the search responses that arrived "
+                  "before it, each once, in arrival order; arrivals at or after the timeout and frames of any other type or "
+                  "malformed datagrams never change either result (uses C16's reused-array theorem). Tie: the real calls on "
+                  "loopback/multicast sockets in real time vs the model on the same scripts; request count, HPAI, socket and "
+                  "goroutine release by direct oracle.")
+    partial = ("wall-clock behaviour (the timer fires on time, the loop is not starved) and resource release are observed with "
+               "a 400 ms slack on the real runtime, not proved; where no multicast-capable interface exists the Discover half "
+               "is reported as not exercised")
+    level_note = (Prop.level_note + " Real-time test: expected results are only defined for scripts whose arrivals keep 70 ms "
+                  "distance from the timeout.")
+
+
+ALL = {c.id: c for c in [C16, C20, C12, C01, C02, C03, C04, C05, C06, C07, C08, C09, C10, C11, C13, C14, C15, C17, C18, C19]}
 NOT_CLAIMED = {}
 
 
